@@ -82,6 +82,9 @@ func numBuild(c *numCase) (*numParser, error) {
 	if c.Shape == "multifirst" || c.Shape == "multilast" {
 		tag = "@Num @Num"
 	}
+	if c.Shape == "typedwild" {
+		tag = strings.ReplaceAll(tag, "@Num", `@"":Num`)
+	}
 	st := reflect.StructOf([]reflect.StructField{{Name: "V", Type: t, Tag: reflect.StructTag(tag)}})
 	p, err := participle.Build[numRoot](participle.Lexer(lx), participle.Elide("WS"), participle.Union[numRootU](reflect.New(st).Interface()))
 	if err != nil {
